@@ -180,7 +180,7 @@ func c38Gen(rt *rapid.T) *hist.Case {
 	g.Versions = []byte{4, 5, 5}
 	g.Topics = []string{"a", "a/b", "b"}
 	g.Filters = []string{"a", "a/b", "a/#", "#", "+", "b", "a/+", "$share/g/a", "$share/g/a/#"}
-	g.Retain, g.EmptyPayload = true, true
+	g.Retain, g.EmptyPayload, g.AckFailure = true, true, true
 	g.WConnect, g.WSubscribe, g.WUnsubscribe, g.WPublish, g.WDisconnect, g.WDrop, g.WAck = 3, 4, 3, 6, 1, 1, 2
 	g.AutoAck = rapid.IntRange(0, 2).Draw(rt, "autoack") != 0
 	g.Expiry = []uint32{0, 100, 5}
